@@ -818,3 +818,153 @@ func ruleExplicitShape(c *Ctx, prop string) {
 	}
 	c.counts["R26.slice_backed_tensors"] = n
 }
+
+// ruleR19Steps (R19:Slice:step-count, R19:Slice:empty-range) — preconditions of gorgonia's Tensor.Slice
+// that the Slice operator has to establish for user-supplied starts/ends/steps. Read from
+// gorgonia.org/tensor@v0.9.24 ap.go (AP.S):
+//   - l.262: the number of elements along axis 0 is (end-start)/step rounded DOWN (rounded up only for
+//     axes i > 0): [0:10:3] of a vector gives 3 elements, ONNX gives 4;
+//   - l.268: a resulting extent <= 0 is "fixed" to 1: the empty range [2:2] yields element 2.
+// So a step other than 1 and a range with start >= end must be refused or computed by the operator
+// itself before Tensor.Slice is reached.
+func ruleR19Steps(c *Ctx, prop string) {
+	oi := c.opByName("Slice")
+	if oi == nil {
+		return
+	}
+	apply := oi.methods["Apply"]
+	reach := map[*ssa.Function]bool{}
+	for f := range c.reachFrom([]*ssa.Function{apply}) {
+		if f == apply || recvNamed(f) == oi.named {
+			reach[f] = true
+		}
+	}
+	scope := func(f *ssa.Function) bool { return reach[f] || fnPkgPath(f) == pkgOps }
+	taintOf := func(k int64) *taintSet {
+		var seeds []ssa.Value
+		for _, b := range apply.Blocks {
+			for _, in := range b.Instrs {
+				if ld, ok := in.(*ssa.UnOp); ok && sameInputLoad(ld, apply.Params[1], k) {
+					seeds = append(seeds, ld)
+				}
+			}
+		}
+		return c.forwardSet(seeds, nil, scope)
+	}
+	tStart, tEnd, tStep := taintOf(1), taintOf(2), taintOf(4)
+	var slicers []*ssa.Call
+	for f := range reach {
+		for _, b := range f.Blocks {
+			for _, in := range b.Instrs {
+				if cl, ok := in.(*ssa.Call); ok {
+					if sc := cl.Common().StaticCallee(); sc != nil && sc.Name() == "NewSlicer" && fnPkgPath(sc) == pkgOps {
+						slicers = append(slicers, cl)
+					}
+				}
+			}
+		}
+	}
+	if len(slicers) == 0 {
+		c.undecided("R19", "R19:Slice:step-count", c.pos(apply.Pos()), "Slice no longer builds its slices with ops.NewSlicer: how starts/ends/steps reach Tensor.Slice cannot be followed")
+		return
+	}
+	// rejecting tests on tainted values that every path to the slicer passes
+	guarded := func(cl *ssa.Call, pred func(a atom, cond ssa.Value) bool) bool {
+		check := func(b *ssa.BasicBlock) bool {
+			for _, g := range guardsOf(b) {
+				iff, ok := g.at.Instrs[len(g.at.Instrs)-1].(*ssa.If)
+				if !ok || !c.edgeRejects(iff, !g.truth) {
+					continue
+				}
+				for _, a := range atomsOf(g) {
+					if pred(a, g.cond) {
+						return true
+					}
+				}
+			}
+			// a validation loop that ran to completion before b: its header dominates b, b is outside the loop, and
+			// inside the loop a test of the predicate rejects
+			for _, h := range b.Parent().Blocks {
+				if !h.Dominates(b) {
+					continue
+				}
+				lb := loopBlocks(h)
+				if len(lb) < 2 || lb[b] {
+					continue
+				}
+				for x := range lb {
+					if len(x.Instrs) == 0 {
+						continue
+					}
+					iff, ok := x.Instrs[len(x.Instrs)-1].(*ssa.If)
+					if !ok {
+						continue
+					}
+					for _, truth := range []bool{true, false} {
+						if !c.edgeRejects(iff, truth) {
+							continue
+						}
+						for _, a := range atomsOf(guard{cond: iff.Cond, truth: !truth, at: x}) {
+							if pred(a, iff.Cond) {
+								return true
+							}
+						}
+					}
+				}
+			}
+			return false
+		}
+		if check(cl.Block()) {
+			return true
+		}
+		// or the call of the enclosing method in Apply is guarded
+		f := cl.Parent()
+		for _, b := range apply.Blocks {
+			for _, in := range b.Instrs {
+				if call, ok := in.(*ssa.Call); ok && call.Common().StaticCallee() == f && check(b) {
+					return true
+				}
+			}
+		}
+		return false
+	}
+	stepUser, rangeUser := false, false
+	var site *ssa.Call
+	for _, cl := range slicers {
+		opt := varargElems(cl.Common().Args[1])
+		if len(opt) >= 2 && tStep.has(opt[1]) {
+			stepUser = true
+			site = cl
+		}
+		if len(opt) >= 1 && tStart.has(cl.Common().Args[0]) && tEnd.has(opt[0]) {
+			rangeUser = true
+			site = cl
+		}
+	}
+	if site == nil {
+		site = slicers[0]
+	}
+	okStep := !stepUser || guarded(site, func(a atom, cond ssa.Value) bool {
+		// step == 1 enforced, or a divisibility test involving the step
+		if tStep.has(a.x) {
+			if k, ok := constInt(a.y); ok && k == 1 && (a.op == token.EQL || a.op == token.LEQ) {
+				return true
+			}
+		}
+		for _, v := range []ssa.Value{a.x, a.y} {
+			if b, ok := v.(*ssa.BinOp); ok && b.Op == token.REM && tStep.has(b.Y) {
+				return true
+			}
+		}
+		return false
+	})
+	c.decide(okStep, "R19", "R19:Slice:step-count", c.pos(site.Pos()),
+		"user steps reach Tensor.Slice only as 1 or with a divisibility test",
+		"a user-supplied step reaches gorgonia's Tensor.Slice unchecked: along axis 0 gorgonia takes (end-start)/step elements rounded down (ap.go AP.S), so [0:10:3] of a vector yields [0 3 6] where ONNX prescribes [0 3 6 9]")
+	okRange := !rangeUser || guarded(site, func(a atom, cond ssa.Value) bool {
+		return (tStart.has(a.x) && tEnd.has(a.y) || tStart.has(a.y) && tEnd.has(a.x)) && (a.op == token.LSS || a.op == token.GTR || a.op == token.LEQ || a.op == token.GEQ)
+	})
+	c.decide(okRange, "R19", "R19:Slice:empty-range", c.pos(site.Pos()),
+		"start < end is established before Tensor.Slice",
+		"user-supplied start/end reach gorgonia's Tensor.Slice without a start < end test: gorgonia turns an extent <= 0 into 1 (ap.go AP.S), so the empty range [2:2] of a vector yields the element at 2 instead of an empty tensor or an error")
+}
